@@ -25,7 +25,7 @@ let rec print_reply (r : reply) : string =
   | RNil -> "$nil"
   | RArr l -> "*[" ^ String.concat " " (List.map print_reply l) ^ "]"
   | RNilArr -> "*nil"
-  | RPlain s -> "~" ^ hx s
+  | RPlain s -> if string_of_bytes s = "BLOCKED" then "!BLOCKED" else "~" ^ hx s
 
 (* split the inside of "*[ ... ]" on spaces at depth 0 *)
 let split_top (s : string) : string list =
@@ -124,6 +124,9 @@ let run_mem (infile : string) (outfile : string) =
   let case = ref "" and step = ref 0 and bad = ref None in
   let steps = ref 0 and cases = ref 0 and mism = ref 0 in
   let pending_dump = ref [] in
+  let pending_bg = ref [] in            (* G lines (commands of other connections) before an S line *)
+  let watchdog_ms = ref "100000050" in  (* WD line: harness cancels a step still blocked after this long *)
+  let expected_end = ref None in        (* model's return instant of a blocking / BG-accompanied step *)
   let rec nat_of_int i = if i <= 0 then O else S (nat_of_int (i - 1)) in
   let fail kind exp obs =
     if !bad = None then bad := Some (Printf.sprintf "step=%d kind=%s model=%s impl=%s" !step kind exp obs) in
@@ -132,7 +135,7 @@ let run_mem (infile : string) (outfile : string) =
         (match split_ws l with
          | [_; name; dbs] -> case := name; srv := srv_init (nat_of_int (int_of_string dbs))
          | _ -> failwith "bad CASE");
-        step := 0; bad := None; pending_dump := []; incr cases
+        step := 0; bad := None; pending_dump := []; pending_bg := []; expected_end := None; incr cases
       end else if starts_with l "S " then begin
         incr step; incr steps;
         let bar = String.index l '|' in
@@ -143,11 +146,54 @@ let run_mem (infile : string) (outfile : string) =
            let args = List.map unhx args in
            let name = (match args with a :: _ -> String.lowercase_ascii (string_of_bytes a) | [] -> "") in
            let hint = parse_reply obs in
+           if !pending_bg <> [] || name = "blpop" || name = "brpop" then begin
+             (* a step during which other connections act (harness directive BG) and/or which blocks *)
+             let bgs = List.rev !pending_bg in
+             pending_bg := [];
+             let srv0 = ref !srv in
+             let evs = List.map (fun (c, ms, a, o) ->
+                 { bg_conn = z_of_string c; bg_ms = z_of_string ms; bg_args = a; bg_hint = parse_reply o }) bgs in
+             let (((r, outs), s'), tend) =
+               srv_exec_bg !srv (z_of_string conn) (z_of_string now) (z_of_string nowms) args hint evs
+                 (z_of_string !watchdog_ms) in
+             srv := s';
+             expected_end := Some (string_of_z tend);
+             let exp = canon_for_cmd name (print_reply r) in
+             if exp <> obs then fail "reply" exp obs;
+             (* a blocking pop with nobody else acting: the dispatcher's own executor (exec_bpop
+                through srv_exec, the subject of the C09 theorems) must give the same reply and
+                keyspace; skipped when the watchdog cut the wait (it would iterate to the timeout) *)
+             if bgs = [] && exp <> "!BLOCKED" then begin
+               let (r2, s2) = srv_exec !srv0 (z_of_string conn) (z_of_string now) (z_of_string nowms) args hint in
+               let exp2 = canon_for_cmd name (print_reply r2) in
+               if exp2 <> exp then fail "exec-vs-bg" exp2 exp;
+               srv := s2
+             end;
+             List.iter2 (fun (_, _, a, o) r ->
+                 let n = (match a with x :: _ -> String.lowercase_ascii (string_of_bytes x) | [] -> "") in
+                 let e = canon_for_cmd n (print_reply r) in
+                 if e <> o then fail "bg-reply" e o) bgs outs
+           end else begin
            let (r, s') = srv_exec !srv (z_of_string conn) (z_of_string now) (z_of_string nowms) args hint in
            srv := s';
            let exp = canon_for_cmd name (print_reply r) in
            if exp <> obs then fail "reply" exp obs
+           end
          | _ -> failwith "bad S line")
+      end else if starts_with l "G " then begin
+        let bar = String.index l '|' in
+        let left = split_ws (String.sub l 0 bar) in
+        let obs = String.trim (String.sub l (bar + 1) (String.length l - bar - 1)) in
+        (match left with
+         | _ :: _ :: nowms :: conn :: args -> pending_bg := (conn, nowms, List.map unhx args, obs) :: !pending_bg
+         | _ -> failwith "bad G line")
+      end else if starts_with l "WD " then begin
+        (match split_ws l with [_; ms] -> watchdog_ms := ms | _ -> ())
+      end else if starts_with l "T " then begin
+        (match !expected_end, split_ws l with
+         | Some e, [_; o] -> if e <> o then fail "endtime" e o
+         | _ -> ());
+        expected_end := None
       end else if starts_with l "D " then pending_dump := l :: !pending_dump
       else if starts_with l "DEND " then begin
         let now = z_of_string (List.nth (split_ws l) 1) in
